@@ -741,6 +741,12 @@ class Serialization:
             out, val, serialization=self, subtypes=type_tree.subtypes
         )
 
+    def _has_unknown_codec(self, type_tree: SubtypeTree) -> bool:
+        """Does the type tree mention a name there is no codec for?"""
+        return type_tree.name not in self.codecs or any(
+            self._has_unknown_codec(t) for t in type_tree.subtypes
+        )
+
     @staticmethod
     def _parse_type(type_name: str) -> SubtypeTree:
         """Given an encoded aux_data type_name, generate its parse tree.
@@ -844,6 +850,12 @@ class Serialization:
             all_bytes = raw_bytes
         else:
             all_bytes = raw_bytes.read()
+        if self._has_unknown_codec(parse_tree):
+            # A type with an unknown codec anywhere in it cannot be re-encoded
+            # faithfully, even if the bytes at hand happen never to reach the
+            # unknown part (an empty container, another variant alternative):
+            # keep the whole table as an opaque blob.
+            return UnknownData(all_bytes)
         try:
             return self._decode_tree(
                 io.BytesIO(all_bytes), parse_tree, get_by_uuid
